@@ -33,6 +33,7 @@ func runC10(c *core.Ctx, r *core.Reporter) {
 	c11walk(c, r, "C10.walk")
 	c10shadow(c, r, "C10.shadow")
 	c10wrapscope(c, r, "C10.wrapscope")
+	c10nilprec(c, r, "C10.nilprec")
 	pkgNoState(c, r, "C10.nostate", "the Call of every built-in of pkg/generic and pkg/clos stores nothing into its own function object: the call site of (call-next-method) is shared by every effective method that contains the method it stands in, so a remembered location or method list belongs to whichever argument classes came first", 25, "pkg/generic", "pkg/clos")
 }
 
